@@ -533,6 +533,10 @@ class HyperscanTokenizer(Tokenizer):
                 start = byte_to_str_offset[start]
                 end = byte_to_str_offset[end]
                 m = extractor.compiled_regex.match(text[start:end])
+                if m is None:
+                    # hyperscan matches bytes; python may disagree, e.g. on
+                    # non-ascii whitespace
+                    continue
                 yield extractor.get_token(m, offset=start)
 
     @property
